@@ -17,6 +17,7 @@ def run(prog: Program, rep: Report, tier: str) -> None:
     rep.rule('C10-D2', 'dispatch: tree_decomposition tests exactly the documented methods (README, bin/factorize.py choices) and raises on anything else')
     rep.rule('C10-D3', 'non-destructive bounds: min_fill / minor_min_width / quickbb work on a private copy of their argument graph (so that the bound helpers can be called on the graph that is decomposed afterwards)')
     rep.rule('C10-D4', 'reported width accounts for every eliminated vertex: in a function that returns (width, order) with `order` grown inside a loop, every statement that adds vertices to `order` is preceded, on all paths of the same iteration, by `width = max(width, <degree>)`')
+    rep.rule('C10-D5', 'bags-linked: in tree_decomposition_from_order, once the bags of the rest of the order exist (after the recursive call) every path to the return links the new bag to one of them with add_edge; the result is one tree, not a forest (bags are assumed not to be None)')
     rep.not_decided += ['validity (coverage, running intersection) of the decomposition for all graphs', 'optimality of quickbb/acb', 'correctness of acb_connected']
     f = prog.func(FZ, 'acb')
     loops = [(l, a) for l, a in find_accumulating_loops(f) if isinstance(l.iter, ast.Call) and callee_last(l.iter) == 'connected_components']
@@ -48,6 +49,7 @@ def run(prog: Program, rep: Report, tier: str) -> None:
                     bad.append(f"{norm(par)} at line {u.lineno} is not guarded by len({acc}) == 1")
         rep.ob('C10-D1 all-components-joined', f.fq(), f"uses of {acc} after the loop", f.loc(loop), bool(uses) and not bad,
                f"{len(uses)} use(s) after the loop; " + ('; '.join(bad) if bad else 'a single element is taken only when there is exactly one component, otherwise the whole list becomes the children of the root'))
+    check_bags_linked(prog, rep)
     # D2
     td = prog.func(FZ, 'tree_decomposition')
     documented: Dict[str, Set[str]] = {}
@@ -119,3 +121,31 @@ def width_accounting(rep: Report, prog: Program) -> None:
                    'every vertex placed in the order has its elimination degree counted in the reported width' if ok else
                    f"vertices enter `{O}` on a path that never updates `{W}` (" + ' -> '.join(cfg.describe(x).split(':', 1)[0] for x in (wit or [])[-4:]) + '): the width returned with the order can be smaller than the width of that order')
     rep.floor('C10-D4', n, 1)
+
+
+def check_bags_linked(prog: Program, rep: Report) -> None:
+    from ..cfg import cfg_of
+    from ..guards import walk, Env
+    rule = 'C10-D5 bags-linked'
+    f = prog.func(FZ, 'tree_decomposition_from_order')
+    scopes = [f] + [g for q, g in f.module.functions.items() if q.startswith(f.qualname + '.') and not g.is_lambda]
+    n = 0
+
+    def calls(st, name):
+        return any(isinstance(x, ast.Call) and callee_last(x) == name for x in ast.walk(st))
+    for g in scopes:
+        cfg = cfg_of(g)
+        stmts = {nid: nd for nid, nd in cfg.nodes.items() if nd.kind == 'stmt' and nd.stmt is not None}
+        rec = [nid for nid, nd in stmts.items() if any(isinstance(x, ast.Call) and isinstance(x.func, ast.Name) and x.func.id == g.name for x in ast.walk(nd.stmt))]
+        if not rec or not any(calls(nd.stmt, 'add_node') for nd in stmts.values()):
+            continue
+        for r in rec:
+            n += 1
+            linked = lambda nid: nid in stmts and calls(stmts[nid].stmt, 'add_edge')
+            reach = walk(cfg, r, Env(), stop=linked, loop_items_not_none=True, lookups_not_none=True)
+            ok = cfg.exit not in reach
+            rep.ob(rule, g.fq(), f"after {norm(cfg.nodes[r].stmt)[:60]}: the new bag is linked with add_edge on every path to the return", g.loc(cfg.nodes[r].stmt), ok,
+                   'every path passes add_edge (the parent bag is bound by the search loop, whose fall-through is `assert False`)' if ok else
+                   'the function can return after the bags of the remaining vertices exist without linking the new bag: the decomposition of a disconnected graph becomes a forest and everything outside the root\'s tree is lost')
+    if n == 0:
+        rep.error(f"{rule}: no recursive bag construction found in tree_decomposition_from_order; idiom not recognised")
